@@ -37,8 +37,24 @@ CLAIM = {
             'rest within 1e-9) for the hand-written object machines, negative-loss policy and scalar/array dispatch. '
             'Outside the theorems: binary64 rounding, numpy broadcasting, shadowing (random; switched off), non-positive '
             'or NaN distances in arrays. Monotonicity of the General family carries the guard n >= 0 and the inverse '
-            'n != 0 (the setters accept any float; the negative-exponent counter-theorem is proved). One defect fixed '
-            '(PathLossMetisPS7.which_distance_dB was `pass`).',
+            'n != 0 (the setters accept any float; the negative-exponent counter-theorem is proved). '
+            'Robustness classes: R1 (element types) and R2 (shape / memory layout) by THEOREM on the model side '
+            '(array_query_positional, clamp_policy_commutes_with_reshape: array queries are positional functions of '
+            'the logical values) and by correspondence + oracle on the code side (the same logical values as Python '
+            'int, numpy int8..int64/uint8/uint16 and float32/float16 scalars, int16/int32/int64/uint8/uint16/float32 '
+            'arrays, lists/tuples, 0-d, size-0, (N,1), (1,N), 2-D, 3-D, Fortran, transposed, reversed, strided and '
+            'broadcast views, 2-D wall-count arrays; compared positionally with float64 scalar queries under both '
+            'policies; complex dtypes do not apply to distances/angles). R3 (inputs unmodified, outputs fresh and not '
+            'aliased) oracle only. R4 (rejected calls) by theorem for the Okumura-Hata setters '
+            '(oh_rejected_setter_is_noop, oh_rejected_call_can_be_dropped), oracle for policy-raise / d<=0 / bad '
+            'type / negative walls / not-offered / failed plot. R5 (boundary: d=1, zero-loss distance, exponent 0, '
+            'guard bounds, single-element and empty arrays, angles 0/90/180/360/720) oracle + corpus; the model facts '
+            'are instances of the general theorems. R6 (scale 1e-12..1e12, relative comparisons) oracle; the model '
+            'statement is the affine-in-log10 form proved in generalDb_real etc. R7 (long-lived / shared objects) by '
+            'theorem for setter histories (fs_C_invariant, fs_history_independent, oh_ranges_after_history), '
+            'oracle for query purity, idempotent repeated setters and a second user of the same object. Defects '
+            'fixed: PS7 which_distance_dB was `pass`; integer-dtype / list distances (reduced precision, TypeError '
+            'in Okumura-Hata); failed plot left shadowing switched off.',
 }
 
 PYERRS = ['ValueError', 'TypeError', 'IndexError', 'AssertionError', 'ZeroDivisionError', 'AttributeError',
@@ -132,6 +148,133 @@ def tok_fl(xs):
     return ','.join(core.f2s(float(x)) for x in xs)
 
 
+# ---- R1 / R2: the same logical values in another element type / memory layout / shape.
+# An op may end with a dict `fmt`; the MODEL always receives the logical float64 values
+# (its queries are functions of the logical value only), the CODE receives the typed / shaped object.
+#   scalars : {'stype': 'int'|'int8'|'uint8'|'int16'|'uint16'|'int32'|'int64'|'float32'|'float16'}
+#   arrays  : {'dtype': <numpy dtype name>, 'shape': [...], 'layout': 'C'|'F'|'T'|'rev'|'stride2'|'bcast'|
+#              '0d'|'list'|'tuple', 'wcol': bool (PS7 walls given as a (k,1) column broadcast against (k,m))}
+INT_TYPES = ('int8', 'uint8', 'int16', 'uint16', 'int32', 'int64')
+NARROW_FLOATS = ('float32', 'float16')
+
+
+def split_fmt(op):
+    if isinstance(op[-1], dict):
+        return list(op[:-1]), op[-1]
+    return list(op), None
+
+
+def logical_values(values, fmt):
+    """flattened (C order) logical content of the array built by make_array"""
+    if fmt and fmt.get('layout') == 'bcast':
+        k = fmt['shape'][0]
+        return list(values) * k
+    return list(values)
+
+
+def logical_shape(values, fmt):
+    if not fmt:
+        return (len(values),)
+    if fmt.get('layout') == '0d':
+        return ()
+    if fmt.get('layout') in ('list', 'tuple'):
+        return (len(values),)
+    return tuple(fmt.get('shape', [len(values)]))
+
+
+def logical_walls(nws, fmt, n):
+    """PS7 array walls: per-entry wall counts in C order"""
+    if fmt and fmt.get('wcol'):
+        m = fmt['shape'][-1]
+        return [w for w in nws for _ in range(m)]
+    if fmt and fmt.get('layout') == 'bcast':
+        return list(nws) * fmt['shape'][0]
+    return list(nws)
+
+
+def make_scalar(v, fmt):
+    st = (fmt or {}).get('stype', 'float')
+    if st == 'float':
+        return float(v)
+    if st == 'int':
+        return int(v)
+    return np.dtype(st).type(v)
+
+
+def make_array(values, fmt, dtype_default='float64'):
+    """the array object handed to the code; logical content = logical_values(values, fmt) in C order"""
+    fmt = fmt or {}
+    dt = fmt.get('dtype', dtype_default)
+    lay = fmt.get('layout', 'C')
+    base = np.array(values, dtype=float).astype(dt)
+    if lay in ('list', 'tuple'):
+        seq = [int(v) if dt.startswith(('int', 'uint')) else float(v) for v in values]
+        return seq if lay == 'list' else tuple(seq)
+    if lay == '0d':
+        return np.array(base[0])
+    shape = tuple(fmt.get('shape', [len(values)]))
+    if lay == 'bcast':
+        a = np.broadcast_to(base, shape)
+        return a                       # read-only broadcast view, strides (0, itemsize)
+    a = base.reshape(shape)
+    if lay == 'C':
+        return a
+    if lay == 'F':
+        return np.asfortranarray(a)
+    if lay == 'T':
+        return np.ascontiguousarray(a.T).T
+    if lay == 'rev':
+        return np.ascontiguousarray(a[::-1])[::-1]
+    if lay == 'stride2':
+        buf = np.ones(a.shape[:-1] + (2 * a.shape[-1],), dtype=a.dtype)
+        buf[..., ::2] = a
+        return buf[..., ::2]
+    raise ValueError(lay)
+
+
+def fmt_tolerance(fmt):
+    """(relative tolerance factor for dB values, for positive linear values)"""
+    dt = (fmt or {}).get('dtype', (fmt or {}).get('stype', 'float64'))
+    if dt == 'float32':
+        return 5e-4, 5e-4          # intermediate terms of a few hundred dB cancel in float32
+    if dt == 'float16':
+        return 5e-3, 5e-2
+    return 1e-9, 1e-9
+
+
+def fmt_branches(ctx, fmt, prefix=''):
+    if not fmt:
+        return
+    st = fmt.get('stype')
+    if st:
+        ctx.branch(prefix + ('R1:int-scalar' if st == 'int' else 'R1:npint-scalar' if st in INT_TYPES
+                             else 'R1:narrow-float-scalar'))
+        return
+    dt, lay, shape = fmt.get('dtype', 'float64'), fmt.get('layout', 'C'), fmt.get('shape')
+    if dt in INT_TYPES:
+        ctx.branch(prefix + ('R1:uint8-array' if dt == 'uint8' else 'R1:int-array'))
+    elif dt in NARROW_FLOATS:
+        ctx.branch(prefix + 'R1:narrow-float-array')
+    if lay in ('list', 'tuple'):
+        ctx.branch(prefix + 'R1:list-or-tuple')
+    elif lay == '0d':
+        ctx.branch(prefix + 'R2:0d')
+    else:
+        ctx.branch(prefix + {'C': 'R2:c-order', 'F': 'R2:fortran', 'T': 'R2:transposed', 'rev': 'R2:reversed',
+                             'stride2': 'R2:strided', 'bcast': 'R2:broadcast'}[lay])
+        if shape is not None:
+            if 0 in shape:
+                ctx.branch(prefix + 'R2:size0')
+            elif len(shape) == 2 and shape[1] == 1:
+                ctx.branch(prefix + 'R2:Nx1')
+            elif len(shape) == 2 and shape[0] == 1:
+                ctx.branch(prefix + 'R2:1xN')
+            elif len(shape) == 2:
+                ctx.branch(prefix + 'R2:2d')
+            elif len(shape) >= 3:
+                ctx.branch(prefix + 'R2:3d')
+
+
 def case_line(case):
     kind = case['kind']
     head = {'gen': lambda: 'gen %s %s' % (tok_f(case['ctor'][0]), tok_f(case['ctor'][1])),
@@ -143,6 +286,7 @@ def case_line(case):
             'ant': lambda: 'ant %d' % case['ctor'][0]}[kind]()
     toks = []
     for op in case['ops']:
+        op, fmt = split_fmt(op)
         name = op[0]
         if name == 'small':
             toks.append('small:%d' % int(op[1]))
@@ -153,21 +297,33 @@ def case_line(case):
         elif kind == 'ps7' and name in ('db', 'lin', 'wdb', 'wl'):
             toks.append('%s:%d:%s' % (name, op[1], tok_f(op[2])))
         elif kind == 'ps7' and name in ('dba', 'wdba'):
-            toks.append('%s:%d:%s' % (name, op[1], tok_fl(op[2])))
+            toks.append('%s:%d:%s' % (name, op[1], tok_fl(logical_values(op[2], fmt))))
         elif kind == 'ps7' and name == 'dbw':
-            toks.append('dbw:%s:%s' % (','.join(str(w) for w in op[1]), tok_fl(op[2])))
+            ds = logical_values(op[2], fmt)
+            toks.append('dbw:%s:%s' % (','.join(str(w) for w in logical_walls(op[1], fmt, len(ds))), tok_fl(ds)))
         elif name in ('db', 'lin', 'wdb', 'wl', 'g'):
             toks.append('%s:%s' % (name, tok_f(op[1])))
         elif name in ('dba', 'lina', 'wdba', 'wla', 'ga'):
-            toks.append('%s:%s' % (name, tok_fl(op[1])))
+            toks.append('%s:%s' % (name, tok_fl(logical_values(op[1], fmt))))
         else:
             raise ValueError(op)
     return head + ' ' + ' '.join(toks)
 
 
+def make_walls(nws, fmt):
+    fmt = fmt or {}
+    wdt = fmt.get('wdtype', 'int64')
+    if fmt.get('wcol'):
+        return np.array(nws, dtype=wdt).reshape(len(nws), 1)
+    if fmt.get('layout') == 'bcast':
+        return np.broadcast_to(np.array(nws, dtype=wdt), tuple(fmt['shape']))
+    a = make_array(nws, {k: v for k, v in fmt.items() if k in ('shape', 'layout')}, 'int64')
+    return a.astype(wdt) if fmt.get('layout', 'C') == 'C' else a
+
+
 def run_impl(case):
     """execute the ops of a case on the real code; one result per op:
-    'ok' | 'error:<Name>' | float | [floats] | 'None'"""
+    'ok' | 'error:<Name>' | float | [floats] | 'None' | 'shape:<got>!=<expected>'"""
     try:
         o, _ = build({'kind': case['kind'], 'ctor': case.get('ctor')})
     except Exception as e:
@@ -176,58 +332,81 @@ def run_impl(case):
     res = []
     warnings.simplefilter('ignore')
     for op in case['ops']:
+        op, fmt = split_fmt(op)
         name = op[0]
+        want_shape = None
         try:
-            if name in ('small', 'area', 'n', 'fc', 'hbs', 'hms'):
+            if name in ('small', 'area'):
                 r = apply_setter(o, name, op[1])
+            elif name in ('n', 'fc', 'hbs', 'hms'):
+                r = apply_setter(o, name, make_scalar(op[1], fmt))
             elif kind == 'ps7' and name == 'db':
-                r = call_db(o, op[2], op[1])
+                r = call_db(o, make_scalar(op[2], fmt), op[1])
             elif kind == 'ps7' and name == 'lin':
-                r = call_lin(o, op[2], op[1])
+                r = call_lin(o, make_scalar(op[2], fmt), op[1])
             elif kind == 'ps7' and name == 'dba':
-                r = call_db(o, np.array(op[2], dtype=float), op[1])
+                want_shape = logical_shape(op[2], fmt)
+                r = call_db(o, make_array(op[2], fmt), op[1])
             elif kind == 'ps7' and name == 'dbw':
-                r = call_db(o, np.array(op[2], dtype=float), np.array(op[1], dtype=int))
+                want_shape = logical_shape(op[2], fmt)
+                r = call_db(o, make_array(op[2], fmt), make_walls(op[1], fmt))
             elif kind == 'ps7' and name == 'wdb':
-                r = o.which_distance_dB(op[2], num_walls=op[1]) if op[1] != 0 or len(res) % 2 \
-                    else o.which_distance_dB(op[2])
+                r = o.which_distance_dB(make_scalar(op[2], fmt), num_walls=op[1]) if op[1] != 0 or len(res) % 2 \
+                    else o.which_distance_dB(make_scalar(op[2], fmt))
             elif kind == 'ps7' and name == 'wdba':
-                r = o.which_distance_dB(np.array(op[2], dtype=float), num_walls=op[1])
+                want_shape = logical_shape(op[2], fmt)
+                r = o.which_distance_dB(make_array(op[2], fmt), num_walls=op[1])
             elif kind == 'ps7' and name == 'wl':
-                r = o.which_distance(op[2], num_walls=op[1]) if op[1] != 0 or len(res) % 2 \
-                    else o.which_distance(op[2])
+                r = o.which_distance(make_scalar(op[2], fmt), num_walls=op[1]) if op[1] != 0 or len(res) % 2 \
+                    else o.which_distance(make_scalar(op[2], fmt))
             elif name == 'db':
-                r = call_db(o, op[1])
+                r = call_db(o, make_scalar(op[1], fmt))
             elif name == 'dba':
-                # lists are accepted by the PathLossGeneral family (the suite passes lists)
-                arg = list(op[1]) if (kind in ('gen', 'gpp', 'fs') and len(op[1]) % 2 == 0) \
-                    else np.array(op[1], dtype=float)
+                if fmt is None and kind in ('gen', 'gpp', 'fs') and len(op[1]) % 2 == 0:
+                    arg = list(op[1])      # lists are accepted (the suite passes lists)
+                else:
+                    arg = make_array(op[1], fmt)
+                want_shape = logical_shape(op[1], fmt)
                 r = call_db(o, arg)
             elif name == 'lin':
-                r = call_lin(o, op[1])
+                r = call_lin(o, make_scalar(op[1], fmt))
             elif name == 'lina':
-                r = call_lin(o, np.array(op[1], dtype=float))
+                want_shape = logical_shape(op[1], fmt)
+                r = call_lin(o, make_array(op[1], fmt))
             elif name == 'wdb':
-                r = o.which_distance_dB(op[1])
+                r = o.which_distance_dB(make_scalar(op[1], fmt))
             elif name == 'wdba':
-                r = o.which_distance_dB(np.array(op[1], dtype=float))
+                want_shape = logical_shape(op[1], fmt)
+                r = o.which_distance_dB(make_array(op[1], fmt))
             elif name == 'wl':
-                r = o.which_distance(op[1])
+                r = o.which_distance(make_scalar(op[1], fmt))
             elif name == 'wla':
-                r = o.which_distance(np.array(op[1], dtype=float))
+                want_shape = logical_shape(op[1], fmt)
+                r = o.which_distance(make_array(op[1], fmt))
             elif name == 'g':
-                r = o.get_antenna_gain(op[1])
+                r = o.get_antenna_gain(make_scalar(op[1], fmt))
             elif name == 'ga':
-                r = o.get_antenna_gain(np.array(op[1], dtype=float))
+                want_shape = logical_shape(op[1], fmt)
+                r = o.get_antenna_gain(make_array(op[1], fmt))
             else:
                 raise ValueError(op)
         except Exception as e:
             r = errname(e)
         if r is None:
             r = 'None'
+        elif isinstance(r, str):
+            pass
+        elif want_shape is not None:
+            got = tuple(np.shape(r))
+            if got != tuple(want_shape):
+                r = 'shape:%r!=%r' % (got, tuple(want_shape))
+            elif np.asarray(r).dtype.kind != 'f':
+                r = 'dtype:%s' % np.asarray(r).dtype
+            else:
+                r = [float(x) for x in np.asarray(r).ravel()]
         elif isinstance(r, np.ndarray):
             r = [float(x) for x in r.ravel()]
-        elif not isinstance(r, str):
+        else:
             r = float(r)
         res.append(r)
     return res
@@ -236,40 +415,55 @@ def run_impl(case):
 LINEAR_OPS = {'lin', 'lina', 'g', 'ga', 'wdb', 'wdba', 'wl', 'wla'}   # positive quantities: relative tolerance
 
 
-def num_close(a, b, relative):
+def out_of_narrow_range(e, fmt):
+    """the exact answer is not representable as a normal number of the (narrow float) input type: the result
+    legitimately overflows / underflows there"""
+    dt = (fmt or {}).get('dtype', (fmt or {}).get('stype', 'float64'))
+    if dt == 'float32':
+        return abs(e) > 1e37 or (e != 0.0 and abs(e) < 1e-36)
+    if dt == 'float16':
+        return abs(e) > 6e4 or (e != 0.0 and abs(e) < 1e-4)
+    return False
+
+
+def num_close(a, b, relative, tol=1e-9):
     if a == b:
         return True
     if math.isnan(a) or math.isnan(b) or math.isinf(a) or math.isinf(b):
         return False
     if relative:
-        return abs(a - b) <= 1e-9 * max(abs(a), abs(b))
-    return abs(a - b) <= 1e-9 * max(1.0, abs(a), abs(b))
+        return abs(a - b) <= tol * max(abs(a), abs(b))
+    return abs(a - b) <= tol * max(1.0, abs(a), abs(b))
 
 
 def compare(case, impl, model_line):
     """returns (agree, impl_repr, model_repr, n_exact, n_num)"""
     if len(impl) == 1 and len(case['ops']) != 1 and isinstance(impl[0], str) and impl[0].startswith('error'):
         return impl[0] == model_line, impl[0], model_line, 0, 0
-    toks = model_line.split(' ') if model_line else []
+    toks = model_line.split(' ')
     if len(toks) != len(impl):
         return False, repr(impl), model_line, 0, 0
     exact = nums = 0
     for op, a, t in zip(case['ops'], impl, toks):
+        op, fmt = split_fmt(op)
         rel = op[0] in LINEAR_OPS
+        tol = fmt_tolerance(fmt)[1 if rel else 0]
         if isinstance(a, str):
             ok = (a == t)
         elif isinstance(a, float):
-            ok = t.startswith('f') and ',' not in t and num_close(a, core.s2f(t), rel)
+            ok = t.startswith('f') and ',' not in t and (num_close(a, core.s2f(t), rel, tol)
+                                                         or out_of_narrow_range(core.s2f(t), fmt))
             nums += 1
             exact += int(ok and core.f2s(a) == t)
         else:
             parts = t.split(',') if t else []
             ok = (len(parts) == len(a) and all(p.startswith('f') for p in parts)
-                  and all(num_close(x, core.s2f(p), rel) for x, p in zip(a, parts)))
+                  and all(num_close(x, core.s2f(p), rel, tol) or out_of_narrow_range(core.s2f(p), fmt)
+                          for x, p in zip(a, parts)))
             nums += len(a)
             exact += sum(1 for x, p in zip(a, parts) if ok and core.f2s(x) == p)
         if not ok:
-            return False, '%s -> %r' % (op, a), '%s -> %s' % (op[0], decode(t)), exact, nums
+            return False, '%s %s -> %r' % (op, fmt or '', a), '%s -> %s' % (op[0], decode(t)), exact, nums
     return True, 'agree', 'agree', exact, nums
 
 
@@ -307,11 +501,15 @@ def safe_scalar(o, d, nw=None):
     return abs(float(v)) > 1e-6
 
 
-def fs_setter(rng):
+def fs_setter(rng, typed=False):
     r = rng.below(3)
     if r == 0:
+        if typed and rng.chance(0.2):
+            return ['n', float(rng.randint(1, 5)), {'stype': rng.choice(['int', 'int8', 'int32', 'int64'])}]
         return ['n', nice(rng, rng.uniform(0.3, 6.0))]
     if r == 1:
+        if typed and rng.chance(0.2):
+            return ['fc', float(rng.randint(1, 30000)), {'stype': rng.choice(['int', 'int16', 'int64', 'uint16'])}]
         return ['fc', nice(rng, logu(rng, 0.0, 5.0))]
     return ['small', rng.below(2)]
 
@@ -355,27 +553,49 @@ def gen_case_general(ctx, rng, kind, hist_len):
     for _ in range(n_ops):
         r = rng.below(10)
         if r < 4:
-            op = fs_setter(rng) if kind == 'fs' else ['small', rng.below(2)]
-            apply_setter(o, op[0], op[1])
+            op = fs_setter(rng, typed=True) if kind == 'fs' else ['small', rng.below(2)]
+            apply_setter(o, op[0], make_scalar(op[1], op[2]) if len(op) == 3 else op[1])
+            fmt_branches(ctx, op[2] if len(op) == 3 else None, 'corr:')
             ctx.branch('setter:%s.%s' % (kind, op[0]))
         elif r < 6:
             small = rng.chance(0.25)
             d = gen_dist(rng, -9.0, -4.0) if small else gen_dist(rng)
-            if not safe_scalar(o, d):
+            fmt = None
+            if rng.chance(0.2):
+                fmt = rand_scalar_fmt(rng, 'dist')
+                d = conv_value(10.0 ** rng.uniform(0.0, 2.0) if fmt['stype'] not in NARROW_FLOATS else d,
+                               fmt['stype'], 'dist')
+            if not safe_values(o, [d], None, {'dtype': (fmt or {}).get('stype', 'float64')}):
                 continue
-            op = [rng.choice(['db', 'lin']), d]
+            op = [rng.choice(['db', 'lin']), d] + ([fmt] if fmt else [])
+            fmt_branches(ctx, fmt, 'corr:')
         elif r < 8:
-            ds = gen_dists(rng)
-            if rng.chance(0.3):
-                ds[rng.below(len(ds))] = gen_dist(rng, -9.0, -4.0)
-            if not all(safe_scalar(o, d) for d in ds):
-                continue
-            op = [rng.choice(['dba', 'lina']), ds]
+            if rng.chance(0.45):
+                tv = typed_dists(rng, o, None, -3.0, 3.0)
+                if tv is None:
+                    continue
+                op = [rng.choice(['dba', 'lina']), tv[0], tv[1]]
+                fmt_branches(ctx, tv[1], 'corr:')
+            else:
+                ds = gen_dists(rng)
+                if rng.chance(0.3):
+                    ds[rng.below(len(ds))] = gen_dist(rng, -9.0, -4.0)
+                if not all(safe_scalar(o, d) for d in ds):
+                    continue
+                op = [rng.choice(['dba', 'lina']), ds]
         elif r == 8:
             if rng.chance(0.5):
                 op = [rng.choice(['wdb', 'wdba']), None]
                 vals = [nice(rng, rng.uniform(0.0, 200.0)) for _ in range(rng.randint(1, 4))]
                 op[1] = vals[0] if op[0] == 'wdb' else vals
+                if op[0] == 'wdba' and rng.chance(0.5):
+                    n, fmt = rand_array_fmt(rng, 'db', allow_seq=False)
+                    op = ['wdba', [conv_value(rng.uniform(0.0, 200.0), fmt['dtype'], 'db') for _ in range(n)], fmt]
+                    fmt_branches(ctx, fmt, 'corr:')
+                elif op[0] == 'wdb' and rng.chance(0.3):
+                    fmt = rand_scalar_fmt(rng, 'db')
+                    op = ['wdb', conv_value(rng.uniform(0.0, 200.0), fmt['stype'], 'db'), fmt]
+                    fmt_branches(ctx, fmt, 'corr:')
             else:
                 op = [rng.choice(['wl', 'wla']), None]
                 vals = [nice(rng, logu(rng, -18.0, 0.0)) for _ in range(rng.randint(1, 4))]
@@ -416,18 +636,37 @@ def gen_case_ps7(ctx, rng, hist_len):
             ctx.branch('ps7:which_distance')
         elif r < 8:
             nw = 0 if rng.chance(0.4) else rng.randint(1, 6)
-            ds = gen_dists(rng, -1.0, 5.0)
-            if rng.chance(0.25):
-                ds[rng.below(len(ds))] = gen_dist(rng, -9.0, -3.0)
-            if not all(safe_scalar(o, d, nw) for d in ds):
-                continue
-            op = ['dba', nw, ds]
+            if rng.chance(0.45):
+                tv = typed_dists(rng, o, nw, -1.0, 5.0)
+                if tv is None:
+                    continue
+                op = ['dba', nw, tv[0], tv[1]]
+                fmt_branches(ctx, tv[1], 'corr:')
+            else:
+                ds = gen_dists(rng, -1.0, 5.0)
+                if rng.chance(0.25):
+                    ds[rng.below(len(ds))] = gen_dist(rng, -9.0, -3.0)
+                if not all(safe_scalar(o, d, nw) for d in ds):
+                    continue
+                op = ['dba', nw, ds]
         else:
-            ds = gen_dists(rng, -1.0, 5.0)
-            nws = [0 if rng.chance(0.4) else rng.randint(1, 6) for _ in ds]
-            if not all(safe_scalar(o, d, w) for d, w in zip(ds, nws)):
-                continue
-            op = ['dbw', nws, ds]
+            if rng.chance(0.5):
+                k, m = rng.choice([1, 2, 3]), rng.choice([1, 2, 3, 4])
+                wcol = rng.chance(0.5)
+                ds = [gen_dist(rng, -9.0, -3.0) if rng.chance(0.25) else gen_dist(rng, -1.0, 5.0) for _ in range(k * m)]
+                nws = [0 if rng.chance(0.4) else rng.randint(1, 6) for _ in range(k if wcol else k * m)]
+                fmt = {'dtype': 'float64', 'shape': [k, m], 'layout': rng.choice(['C', 'F', 'T']), 'wcol': wcol,
+                       'wdtype': rng.choice(['int64', 'int32', 'uint8', 'int8'])}
+                if not safe_values(o, ds, logical_walls(nws, fmt, k * m), fmt):
+                    continue
+                op = ['dbw', nws, ds, fmt]
+                fmt_branches(ctx, fmt, 'corr:')
+            else:
+                ds = gen_dists(rng, -1.0, 5.0)
+                nws = [0 if rng.chance(0.4) else rng.randint(1, 6) for _ in ds]
+                if not all(safe_scalar(o, d, w) for d, w in zip(ds, nws)):
+                    continue
+                op = ['dbw', nws, ds]
             ctx.branch('ps7:array-walls')
         case['ops'].append(op)
     return case
@@ -457,12 +696,19 @@ def gen_case_oh(ctx, rng, hist_len):
             if o.area_type == 'large city':
                 ctx.branch('oh:large-city:' + ('fc>300' if o.fc > 300 else 'fc<=300'))
         elif r < 9:
-            ds = gen_dists(rng)
-            if rng.chance(0.25):
-                ds[rng.below(len(ds))] = gen_dist(rng, -9.0, -5.0)
-            if not all(safe_scalar(o, d) for d in ds):
-                continue
-            op = ['dba', ds]
+            if rng.chance(0.45):
+                tv = typed_dists(rng, o, None, -3.0, 3.0)
+                if tv is None:
+                    continue
+                op = ['dba', tv[0], tv[1]]
+                fmt_branches(ctx, tv[1], 'corr:')
+            else:
+                ds = gen_dists(rng)
+                if rng.chance(0.25):
+                    ds[rng.below(len(ds))] = gen_dist(rng, -9.0, -5.0)
+                if not all(safe_scalar(o, d) for d in ds):
+                    continue
+                op = ['dba', ds]
         else:
             op = ['wdb', nice(rng, rng.uniform(50.0, 200.0))]
         case['ops'].append(op)
@@ -476,6 +722,15 @@ def gen_case_ant(ctx, rng):
         if rng.chance(0.6):
             a = rng.choice([0.0, 180.0, -180.0, 70.0, 35.0]) if rng.chance(0.2) else nice(rng, rng.uniform(-180.0, 180.0))
             case['ops'].append(['g', a])
+        elif rng.chance(0.5):
+            n, fmt = rand_array_fmt(rng, 'angle', allow_seq=False)
+            vals = [conv_value(rng.uniform(-180.0, 180.0), fmt['dtype'], 'angle') for _ in range(n)]
+            if fmt['dtype'] == 'uint8':
+                vals = [abs(v) for v in vals]
+            if fmt['dtype'] == 'int8':
+                vals = [max(-127.0, min(127.0, v)) for v in vals]
+            case['ops'].append(['ga', vals, fmt])
+            fmt_branches(ctx, fmt, 'corr:')
         else:
             case['ops'].append(['ga', [nice(rng, rng.uniform(-180.0, 180.0)) for _ in range(rng.randint(1, 5))]])
     return case
@@ -831,6 +1086,396 @@ def o_antenna(case):
     return None
 
 
+# ------------------------------------------------------------------ robustness classes R1-R7 (oracles on the REAL code)
+class _Ax:
+    """stand-in for a matplotlib axes (plot_deterministic_path_loss_in_dB only calls ax.plot)"""
+
+    def plot(self, *a, **k):
+        return None
+
+
+def fmt_class(fmt):
+    """failure-class prefix computed from the input format"""
+    if not fmt:
+        return 'R2:C:1d'
+    if fmt.get('stype'):
+        return 'R1:scalar:' + fmt['stype']
+    dt, lay = fmt.get('dtype', 'float64'), fmt.get('layout', 'C')
+    if lay in ('list', 'tuple'):
+        return 'R1:' + lay + (':int' if dt in INT_TYPES else '')
+    if dt != 'float64':
+        return 'R1:array:' + dt
+    if lay == '0d':
+        return 'R2:0d'
+    shape = fmt.get('shape') or []
+    sc = 'size0' if 0 in shape else 'Nx1' if (len(shape) == 2 and shape[1] == 1) else \
+        '1xN' if (len(shape) == 2 and shape[0] == 1) else '%dd' % len(shape)
+    return 'R2:%s:%s' % (lay, sc)
+
+
+def _kw(nw):
+    return {} if nw is None else {'num_walls': nw}
+
+
+def query_call(o, query, arg, nw):
+    with warnings.catch_warnings():
+        warnings.simplefilter('ignore')
+        if query == 'db':
+            return call_db(o, arg, nw)
+        if query == 'lin':
+            return call_lin(o, arg, nw)
+        if query == 'wdb':
+            return o.which_distance_dB(arg, **_kw(nw))
+        if query == 'wl':
+            return o.which_distance(arg, **_kw(nw)) if nw is not None else o.which_distance(arg)
+        if query == 'g':
+            return o.get_antenna_gain(arg)
+    raise ValueError(query)
+
+
+def scalar_ref(o, query, v, nw):
+    try:
+        return float(query_call(o, query, float(v), nw))
+    except (RuntimeError, ValueError, ZeroDivisionError, OverflowError) as e:
+        return errname(e)
+
+
+def snapshot(arg):
+    if isinstance(arg, np.ndarray):
+        return ('nd', arg.dtype.str, arg.shape, np.array(arg, copy=True))
+    if isinstance(arg, (list, tuple)):
+        return ('seq', type(arg).__name__, list(arg))
+    return ('scalar', type(arg).__name__, repr(arg))
+
+
+def same_snapshot(a, b):
+    if a[0] != b[0]:
+        return False
+    if a[0] == 'nd':
+        return a[1] == b[1] and a[2] == b[2] and np.array_equal(a[3], b[3])
+    return a[1:] == b[1:]
+
+
+def o_twin(case):
+    """R1/R2/R3: the same logical values as another element type / shape / memory layout give, position by
+    position, what the float64 scalar queries give; the input is not modified; outputs are fresh"""
+    kind, query, fmt = case['kind'], case['query'], case.get('fmt')
+    o, _ = build(case)
+    nw = case.get('nw')
+    if kind != 'ant':
+        o.handle_small_distances_bool = bool(case.get('small', 1))
+    pre = fmt_class(fmt) + ':' + kind
+    vals = logical_values(case['values'], fmt)
+    if case.get('nws') is not None:
+        walls = logical_walls(case['nws'], fmt, len(vals))
+        refs = [scalar_ref(o, query, v, w) for v, w in zip(vals, walls)]
+        nw = make_walls(case['nws'], fmt)
+    else:
+        refs = [scalar_ref(o, query, v, nw) for v in vals]
+    if fmt and fmt.get('stype'):
+        arg = make_scalar(case['values'][0], fmt)
+        shape = None
+    else:
+        arg = make_array(case['values'], fmt)
+        shape = logical_shape(case['values'], fmt)
+    snap = snapshot(arg)
+    try:
+        r = query_call(o, query, arg, nw)
+        err = None
+    except Exception as e:
+        r, err = None, errname(e)
+    if not same_snapshot(snap, snapshot(arg)):
+        return 'R3:%s:input-modified' % kind, '%s argument changed by the call (%s)' % (query, pre)
+    errs = [x for x in refs if isinstance(x, str)]
+    if errs:
+        if len(vals) and err is None:
+            return pre + ':raise-missing', 'scalar query raises %s, %s of %r returned %r' % (errs[0], query, arg, r)
+        if err is not None and err not in errs:
+            return pre + ':exception', 'scalar queries raise %s, array query raised %s' % (errs[0], err)
+        return None
+    if err is not None:
+        return pre + ':exception', '%s(%r) raised %s; scalar float64 queries give %r' % (query, arg, err, refs[:4])
+    if r is None:
+        return pre + ':none', '%s returned None' % query
+    ra = np.asarray(r)
+    if shape is not None and tuple(ra.shape) != tuple(shape):
+        return pre + ':shape', 'result shape %r for input shape %r' % (ra.shape, shape)
+    if ra.dtype.kind != 'f':
+        return pre + ':dtype', 'result dtype %s' % ra.dtype
+    rel = query in ('lin', 'wdb', 'wl', 'g')
+    tol = fmt_tolerance(fmt)[1 if rel else 0]
+    flat = [float(x) for x in ra.ravel()]
+    for i, (g, e) in enumerate(zip(flat, refs)):
+        if not num_close(g, e, rel, tol) and not out_of_narrow_range(e, fmt):
+            return pre + ':value', ('entry %d (logical value %r): %s gives %r, the float64 scalar query %r'
+                                    % (i, vals[i], query, g, e))
+    if isinstance(arg, np.ndarray) and isinstance(r, np.ndarray) and arg.size and np.shares_memory(r, arg):
+        return 'R3:%s:output-aliases-input' % kind, '%s result shares memory with its argument' % query
+    if isinstance(r, np.ndarray) and r.size:
+        keep = r.copy()
+        if kind != 'ant':
+            o.handle_small_distances_bool = True
+        later = np.full(ra.shape, 1e-30 if query in ('db', 'lin') else 3.0)
+        try:
+            r2 = query_call(o, query, later, nw)
+            query_call(o, query, make_array(case['values'], fmt), nw)
+        except Exception:
+            r2 = None
+        if not np.array_equal(keep, r, equal_nan=True):
+            return 'R3:%s:earlier-output-changed' % kind, 'result of an earlier %s call changed after later calls' % query
+        if isinstance(r2, np.ndarray) and np.shares_memory(r2, r):
+            return 'R3:%s:outputs-share-buffer' % kind, 'two %s results share memory' % query
+    return None
+
+
+def observe(o, probe, nw):
+    """every observable of a path-loss object: attributes + answers to fixed queries"""
+    attrs = tuple(sorted((k, repr(v)) for k, v in vars(o).items()))
+    if getattr(o, 'use_shadow_bool', False):
+        return attrs, ()
+    out = []
+    for d in probe:
+        out.append(scalar_ref(o, 'db', d, nw))
+    try:
+        with warnings.catch_warnings():
+            warnings.simplefilter('ignore')
+            a = call_db(o, np.array(probe, dtype=float), nw)
+        out.append(tuple(float(x) for x in np.asarray(a).ravel()))
+    except Exception as e:
+        out.append(errname(e))
+    for p in (50.0, 120.0):
+        try:
+            out.append(float(o.which_distance_dB(p, **_kw(nw))))
+        except Exception as e:
+            out.append(errname(e))
+    return attrs, tuple(out)
+
+
+def do_rejected(o, rej, nw):
+    """perform the call that is expected to raise; returns the exception name or None"""
+    typ, payload = rej
+    try:
+        with warnings.catch_warnings():
+            warnings.simplefilter('ignore')
+            if typ == 'setter':
+                r = apply_setter(o, payload[0], payload[1])
+                return None if r == 'ok' else r
+            if typ == 'policy-raise':
+                call_db(o, payload if not isinstance(payload, list) else np.array(payload, dtype=float), nw)
+            elif typ == 'policy-raise-lin':
+                call_lin(o, np.array(payload, dtype=float), nw)
+            elif typ == 'neg-walls':
+                call_db(o, 10.0, payload)
+            elif typ == 'neg-walls-which':
+                o.which_distance_dB(70.0, num_walls=payload)
+            elif typ in ('d-zero', 'd-negative', 'bad-type'):
+                call_db(o, payload, nw)
+            elif typ == 'which-not-offered':
+                o.which_distance_dB(payload)
+            elif typ == 'plot-raise':
+                o.plot_deterministic_path_loss_in_dB(np.array(payload, dtype=float), ax=_Ax())
+            else:
+                raise ValueError(typ)
+        return None
+    except Exception as e:
+        return errname(e)
+
+
+def o_rejected(case):
+    """R4: a call that raises leaves the object exactly as it was, and the rest of the history behaves as
+    if the rejected call had never been made"""
+    kind = case['kind']
+    nw = case.get('nw')
+    rej = case['reject']
+    o, _ = build(case)
+    t, _ = build(case)
+    if rej[0] == 'plot-raise':
+        o.use_shadow_bool = t.use_shadow_bool = True
+    probe = case['probe']
+    before = observe(o, probe, nw)
+    err = do_rejected(o, rej, nw)
+    if err is None:
+        return None                      # the call was accepted: nothing to check here
+    after = observe(o, probe, nw)
+    cls = 'R4:%s:%s' % (kind, rej[0] if rej[0] != 'setter' else 'setter.' + rej[1][0])
+    if before != after:
+        diff = [(a, b) for a, b in zip(before[0], after[0]) if a != b]
+        return cls + ':state-changed', 'after a call raising %s: %r' % (err, diff[:3] or 'query answers differ')
+    if rej[0] == 'plot-raise':
+        o.use_shadow_bool = t.use_shadow_bool = False
+    for name, v in case.get('after', []):
+        ra, rb = apply_setter(o, name, v), apply_setter(t, name, v)
+        if ra != rb:
+            return cls + ':history-diverges', 'setter %s=%r: %s vs %s on the object that never saw the call' % (name, v, ra, rb)
+    if observe(o, probe, nw) != observe(t, probe, nw):
+        return cls + ':history-diverges', 'after %r the object differs from one that never saw the rejected call' % (case.get('after'),)
+    return None
+
+
+def o_boundary(case):
+    """R5: boundary / degenerate values"""
+    pl, ag = _impl()
+    kind = case['kind']
+    nw = case.get('nw')
+    if kind == 'ant':
+        a = ag.AntGainBS3GPP25996(case['sectors'])
+        g0 = float(a.get_antenna_gain(0))
+        floor = g0 * 10.0 ** (-a.Am / 10.0)
+        for m in (0, 90, 180, 360, 720, -90, -180, -360, -720):
+            for v in (m, float(m), np.int16(m), np.array([m]), np.array([[float(m)]])):
+                g = np.asarray(a.get_antenna_gain(v), dtype=float).ravel()[0]
+                gm = np.asarray(a.get_antenna_gain(-v), dtype=float).ravel()[0]
+                if g != gm:
+                    return 'R5:ant:asymmetric-at-multiple', 'angle %r' % (v,)
+                if not (floor * (1 - 1e-12) <= g <= g0 * (1 + 1e-12)):
+                    return 'R5:ant:out-of-range-at-multiple', 'gain(%r) = %r' % (v, g)
+                if abs(m) >= 180 and abs(g - floor) > 1e-12 * floor:
+                    return 'R5:ant:floor-at-multiple', 'gain(%r) = %r, floor %r' % (v, g, floor)
+        if float(a.get_antenna_gain(0)) != float(a.get_antenna_gain(0.0)) or float(a.get_antenna_gain(-0.0)) != g0:
+            return 'R5:ant:zero', 'gain(0), gain(0.0), gain(-0.0) differ'
+        return None
+    o, _ = build(case)
+    o.handle_small_distances_bool = True
+    one = [float(query_call(o, 'db', v, nw)) for v in (1, 1.0, np.int8(1), np.uint16(1), np.float32(1))]
+    if max(one) - min(one) > 1e-12 * max(1.0, abs(one[0])):
+        return 'R5:%s:d=1' % kind, 'loss at distance 1 depends on the element type: %r' % one
+    for shp in ((1,), (1, 1), (1, 1, 1)):
+        r = np.asarray(query_call(o, 'db', np.full(shp, 1.0), nw))
+        if r.shape != shp or not num_close(float(r.ravel()[0]), one[0], False, 1e-12):
+            return 'R5:%s:single-element' % kind, 'shape %r gives %r (scalar %r)' % (shp, r, one[0])
+    for shp in ((0,), (0, 3), (2, 0)):
+        for q in ('db', 'lin'):
+            r = np.asarray(query_call(o, q, np.zeros(shp), nw))
+            if r.shape != shp:
+                return 'R5:%s:size0' % kind, '%s of an empty %r array has shape %r' % (q, shp, r.shape)
+    try:
+        d0 = float(o.which_distance_dB(0.0, **_kw(nw)))
+    except NotImplementedError:
+        d0 = None
+    except ZeroDivisionError:
+        d0 = None
+    if d0 is not None and 0.0 < d0 < 1e300:
+        p = float(query_call(o, 'db', d0, nw))
+        if not (0.0 <= p <= 1e-9):
+            return 'R5:%s:zero-loss-distance' % kind, 'loss at which_distance_dB(0) = %r is %r' % (d0, p)
+        if float(query_call(o, 'db', d0 / 2.0, nw)) != 0.0:
+            return 'R5:%s:below-zero-loss-distance' % kind, 'loss at %r not clamped to 0' % (d0 / 2.0)
+        lin0 = float(query_call(o, 'lin', d0 / 2.0, nw))
+        if lin0 != 1.0:
+            return 'R5:%s:linear-of-zero-dB' % kind, 'linear value of a clamped loss is %r' % lin0
+        back = float(query_call(o, 'wl', 1, nw))
+        if abs(back - d0) > 1e-9 * d0:
+            return 'R5:%s:which_distance(1)' % kind, 'which_distance(1) = %r, which_distance_dB(0) = %r' % (back, d0)
+        o.handle_small_distances_bool = False
+        try:
+            query_call(o, 'db', d0 / 2.0, nw)
+            return 'R5:%s:below-zero-loss-distance' % kind, 'no RuntimeError at %r with the flag off' % (d0 / 2.0)
+        except RuntimeError:
+            pass
+        o.handle_small_distances_bool = True
+    if kind == 'ps7':
+        w = [float(query_call(o, 'db', 1e3, k)) for k in (1, 2, 3, 4)]
+        steps = [w[i + 1] - w[i] for i in range(3)]
+        if max(steps) - min(steps) > 1e-9 or steps[0] <= 0:
+            return 'R5:ps7:wall-step', 'losses for 1..4 walls %r' % w
+    if kind == 'oh':
+        for name, vals in (('fc', (150, 150.0, 300, 1500, 1500.0)), ('hbs', (30, 30.0, 200, 200.0)),
+                           ('hms', (1, 1.0, 10, 10.0))):
+            for v in vals:
+                if apply_setter(o, name, v) != 'ok':
+                    return 'R5:oh:bound-rejected', '%s = %r rejected' % (name, v)
+                r = np.asarray(query_call(o, 'db', np.array([1.0, 2.0, 20.0]), None), dtype=float)
+                if not (np.all(np.isfinite(r)) and r[0] <= r[1] <= r[2]):
+                    return 'R5:oh:at-bound', '%s = %r gives %r' % (name, v, r.tolist())
+    if kind == 'gen' and case.get('degenerate'):
+        g = pl.PathLossGeneral(0.0, case['degenerate'])
+        g.handle_small_distances_bool = True
+        r = np.asarray(g.calc_path_loss_dB(np.array([1e-3, 1.0, 1e3])), dtype=float)
+        if not np.all(r == max(case['degenerate'], 0.0)):
+            return 'R5:gen:n=0', 'exponent 0, C=%r gives %r' % (case['degenerate'], r.tolist())
+        try:
+            v = g.which_distance_dB(10.0)
+            return 'R5:gen:n=0', 'which_distance_dB with exponent 0 returned %r' % (v,)
+        except ZeroDivisionError:
+            pass
+    return None
+
+
+def o_scale(case):
+    """R6: the same question at another scale (distances x 10^k): the loss is affine in log10(d) with the
+    slope seen between d and 10 d, the inverse scales by 10^k, arrays mixing scales agree with scalars;
+    every comparison is relative"""
+    kind = case['kind']
+    nw = case.get('nw')
+    o, _ = build(case)
+    o.handle_small_distances_bool = True
+    k = int(case['k'])
+    s = 10.0 ** k
+    for d in _dists(case):
+        p0, p1, ps = (float(query_call(o, 'db', x, nw)) for x in (d, 10.0 * d, s * d))
+        if min(p0, p1, ps) <= 0.0:
+            continue
+        exp = p0 + k * (p1 - p0)
+        if abs(ps - exp) > 1e-9 * max(1.0, abs(ps), abs(k) * abs(p1 - p0)):
+            return 'R6:%s:not-affine-in-log-distance' % kind, ('d=%r k=%d: loss %r, expected %r from the slope '
+                                                               'between d and 10d' % (d, k, ps, exp))
+        if (k > 0 and ps < p0) or (k < 0 and ps > p0):
+            return 'R6:%s:not-monotone-across-scales' % kind, 'd=%r k=%d: %r vs %r' % (d, k, ps, p0)
+        lin = float(query_call(o, 'lin', s * d, nw))
+        if abs(lin - 10.0 ** (-ps / 10.0)) > 1e-12 * lin:
+            return 'R6:%s:linear' % kind, 'd=%r: linear %r for %r dB' % (s * d, lin, ps)
+        try:
+            back = float(o.which_distance_dB(ps, **_kw(nw)))
+        except (NotImplementedError, OverflowError):
+            back = None
+        if back is not None and abs(back - s * d) > 1e-9 * s * d:
+            return 'R6:%s:inverse' % kind, 'which_distance_dB(loss(%r)) = %r' % (s * d, back)
+        arr = np.asarray(query_call(o, 'db', np.array([s * d, d, 10.0 * d]), nw), dtype=float)
+        for g, e in zip(arr.tolist(), (ps, p0, p1)):
+            if abs(g - e) > 1e-9 * max(1.0, abs(e)):
+                return 'R6:%s:mixed-scale-array' % kind, 'array [%r, %r, %r] gives %r, scalars %r' % (
+                    s * d, d, 10 * d, arr.tolist(), (ps, p0, p1))
+    return None
+
+
+def o_shared(case):
+    """R7: queries never change the object (two users may share it), repeated / re-ordered setter calls end in
+    the state of a fresh object with the current configuration"""
+    kind = case['kind']
+    nw = case.get('nw')
+    o, _ = build(case)
+    probe = _dists(case)
+    user_b = observe(o, probe, nw)
+    attrs = user_b[0]
+    arr = np.array(probe + [1e-30], dtype=float)
+    for flag in (True, False):
+        o.handle_small_distances_bool = flag
+        for q in ('db', 'lin', 'wdb', 'wl'):
+            for arg in (probe[0], arr, arr.reshape(-1, 1), [float(x) for x in probe]):
+                if q in ('wdb', 'wl') and not isinstance(arg, (float, np.ndarray)):
+                    continue
+                try:
+                    r1 = query_call(o, q, arg, nw)
+                    r2 = query_call(o, q, arg, nw)
+                except Exception:
+                    continue
+                if r1 is not None and not np.array_equal(np.asarray(r1), np.asarray(r2), equal_nan=True):
+                    return 'R7:%s:not-repeatable' % kind, 'two identical %s calls differ' % q
+    o.handle_small_distances_bool = dict(attrs).get('handle_small_distances_bool') == 'True'
+    if observe(o, probe, nw) != user_b:
+        return 'R7:%s:query-changes-object' % kind, 'attributes / answers seen by a second user changed after queries'
+    # repeat the last setter of every parameter: idempotent
+    last = {}
+    for name, v in case.get('hist', []):
+        last[name] = v
+    for name, v in last.items():
+        apply_setter(o, name, v)
+        apply_setter(o, name, v)
+    if observe(o, probe, nw) != user_b:
+        return 'R7:%s:setter-not-idempotent' % kind, 'repeating the last setter calls %r changed the object' % (last,)
+    return o_history(case)
+
+
 ORACLES = {
     'calc_path_loss_dB.monotone': o_monotone,
     'calc_path_loss.linear': o_linear,
@@ -839,6 +1484,11 @@ ORACLES = {
     'PathLossFreeSpace.friis': o_friis,
     'setters.history': o_history,
     'get_antenna_gain': o_antenna,
+    'robust.twin': o_twin,
+    'robust.rejected': o_rejected,
+    'robust.boundary': o_boundary,
+    'robust.scale': o_scale,
+    'robust.shared': o_shared,
 }
 
 
@@ -880,6 +1530,231 @@ def oracle_case(rng, kind, hist_len):
         case['d'] += [gen_dist(rng, -9.0, -4.0) for _ in range(rng.randint(1, 2))]
     case['pl'] = [nice(rng, rng.uniform(1.0, 220.0)) for _ in range(rng.randint(1, 4))]
     return case
+
+
+# ------------------------------------------------------------------ generators for the R-classes
+SHAPES = {1: [[1], [1, 1]], 2: [[2], [2, 1], [1, 2]], 4: [[4], [2, 2], [4, 1], [1, 4]],
+          6: [[6], [2, 3], [3, 2], [6, 1], [1, 6]], 8: [[8], [2, 4], [4, 2], [2, 2, 2], [8, 1], [1, 8]],
+          12: [[12], [3, 4], [4, 3], [2, 2, 3], [2, 3, 2], [12, 1], [1, 12], [2, 6]]}
+
+
+def conv_value(v, dt, vk):
+    """the value of kind `vk` ('dist' | 'db' | 'lin' | 'angle') made exactly representable in dtype `dt`"""
+    if dt in INT_TYPES or dt == 'int':
+        info = np.iinfo('int64' if dt == 'int' else dt)
+        lo = 1 if vk in ('dist', 'lin') else (0 if vk == 'db' else max(info.min, -180))
+        hi = min(info.max, 30000 if vk == 'dist' else 250 if vk == 'db' else 1 if vk == 'lin' else 180)
+        return float(min(max(int(round(v)), max(lo, info.min)), hi))
+    if dt in NARROW_FLOATS:
+        if dt == 'float16' and vk in ('dist', 'lin'):
+            v = min(max(v, 1e-3), 6e4)
+        return float(np.dtype(dt).type(v))
+    return float(v)
+
+
+def rand_array_fmt(rng, vk, allow_seq=True, allow_empty=True):
+    """(n_values, fmt) — element type, shape and layout of an array argument"""
+    r = rng.uniform()
+    if vk == 'lin':
+        dts = ['float64'] * 6 + ['float32']
+    elif vk == 'db':
+        dts = ['float64'] * 4 + ['int16', 'int32', 'int64', 'uint8', 'uint16', 'float32']
+    elif vk == 'angle':
+        dts = ['float64'] * 4 + ['int8', 'int16', 'int32', 'int64', 'uint8', 'float32', 'float16']
+    else:
+        dts = ['float64'] * 4 + ['int16', 'int32', 'int64', 'uint8', 'uint16', 'float32', 'float32']
+    dt = rng.choice(dts)
+    if allow_empty and r < 0.04:
+        shape = rng.choice([[0], [0, 3], [2, 0]])
+        return 0, {'dtype': dt, 'shape': shape, 'layout': 'C'}
+    if r < 0.10:
+        return 1, {'dtype': dt, 'layout': '0d'}
+    if allow_seq and r < 0.20 and dt in ('float64', 'int64'):
+        return rng.choice([1, 2, 4, 6]), {'dtype': dt, 'layout': rng.choice(['list', 'tuple'])}
+    n = rng.choice([1, 2, 4, 6, 8, 12])
+    shape = rng.choice(SHAPES[n])
+    lay = rng.choice(['C', 'C', 'F', 'T', 'rev', 'stride2', 'bcast'])
+    if lay == 'bcast':
+        m = rng.choice([1, 2, 3, 4])
+        k = rng.choice([2, 3])
+        return m, {'dtype': dt, 'shape': [k, m], 'layout': 'bcast'}
+    return n, {'dtype': dt, 'shape': shape, 'layout': lay}
+
+
+def rand_scalar_fmt(rng, vk):
+    if vk == 'lin':
+        st = rng.choice(['float32', 'int', 'uint8', 'int16'])
+    elif vk == 'db':
+        st = rng.choice(['int', 'int8', 'uint8', 'int16', 'uint16', 'int32', 'int64', 'float32'])
+    elif vk == 'angle':
+        st = rng.choice(['int', 'int8', 'int16', 'int32', 'int64', 'uint8', 'float32', 'float16'])
+    else:
+        st = rng.choice(['int', 'int8', 'uint8', 'int16', 'uint16', 'int32', 'int64', 'float32', 'float16'])
+    return {'stype': st}
+
+
+def fmt_margin(fmt):
+    dt = (fmt or {}).get('dtype', (fmt or {}).get('stype', 'float64'))
+    return 2.0 if dt == 'float16' else 1e-2 if dt == 'float32' else 1e-6
+
+
+def safe_values(o, vals, nw, fmt):
+    """no logical value within the type-dependent margin of the policy threshold"""
+    m = fmt_margin(fmt)
+    for i, d in enumerate(vals):
+        w = nw[i] if isinstance(nw, list) else nw
+        if not abs(float(det_db(o, d, w))) > m:
+            return False
+    return True
+
+
+def typed_dists(rng, o, nw, lo, hi, small_p=0.3, allow_seq=True):
+    """(values, fmt) for a distance-array query, or None when a value is too close to the threshold"""
+    n, fmt = rand_array_fmt(rng, 'dist', allow_seq)
+    dt = fmt['dtype']
+    vals = []
+    for _ in range(n):
+        v = gen_dist(rng, -9.0, -4.0) if (rng.chance(small_p) and dt not in INT_TYPES) else gen_dist(rng, lo, hi)
+        if dt in INT_TYPES:
+            v = 10.0 ** rng.uniform(0.0, 2.3)
+        vals.append(conv_value(v, dt, 'dist'))
+    if not safe_values(o, logical_values(vals, fmt), nw, fmt):
+        return None
+    return vals, fmt
+
+
+def robust_oracles(ctx, n_cases, hist_len):
+    """R1-R7 on the real code; every class has its own required branch"""
+    rng = ctx.rng.fork('robust')
+    kinds = ['fs', 'gen', 'gpp', 'ps7', 'oh', 'fs', 'ps7', 'oh']
+    for i in range(n_cases):
+        kind = kinds[i % len(kinds)]
+        base = oracle_case(rng, kind, min(hist_len, 8))
+        if kind == 'gen' and rng.chance(0.6):
+            base['ctor'][1] = nice(rng, rng.uniform(-60.0, -5.0))     # integer distances can be "too small"
+        o, _ = build(base)
+        nw = base.get('nw')
+        lo, hi = (-1.0, 5.0) if kind == 'ps7' else (-3.0, 3.0)
+        # ---- R1 / R2 / R3: typed and shaped twins of the same logical values, both policies
+        for rep in range(3):
+            q = rng.choice(['db', 'db', 'db', 'lin', 'wdb', 'wl'])
+            if kind == 'oh' and q in ('wdb', 'wl'):
+                q = 'db'
+            vk = {'db': 'dist', 'lin': 'dist', 'wdb': 'db', 'wl': 'lin'}[q]
+            case = {k: base[k] for k in ('kind', 'ctor', 'hist') if k in base}
+            if nw is not None:
+                case['nw'] = nw
+            case['query'] = q
+            case['small'] = rng.below(2)
+            if rng.chance(0.25):
+                fmt = rand_scalar_fmt(rng, vk)
+                v = gen_dist(rng, lo, hi) if vk == 'dist' else rng.uniform(1.0, 220.0) if vk == 'db' else 1.0
+                if vk == 'dist' and fmt['stype'] in INT_TYPES + ('int',):
+                    v = 10.0 ** rng.uniform(0.0, 2.0)
+                vals = [conv_value(v, fmt['stype'], vk)]
+                if vk == 'dist' and not safe_values(o, vals, nw, {'dtype': fmt['stype']}):
+                    continue
+            elif vk == 'dist':
+                tv = typed_dists(rng, o, nw, lo, hi, allow_seq=True)
+                if tv is None:
+                    continue
+                vals, fmt = tv
+            else:
+                n, fmt = rand_array_fmt(rng, vk, allow_seq=False)
+                if vk == 'lin' and rng.chance(0.15):
+                    fmt['dtype'] = rng.choice(['uint8', 'int16', 'int64'])     # the linear value 1 (0 dB)
+                gen = (lambda: rng.uniform(1.0, 220.0)) if vk == 'db' else (lambda: logu(rng, -18.0, 0.0))
+                vals = [conv_value(gen(), fmt['dtype'], vk) for _ in range(n)]
+            case['values'], case['fmt'] = vals, fmt
+            fmt_branches(ctx, fmt, 'oracle:')
+            ctx.branch('oracle:R3:checked')
+            ctx.branch('oracle:policy-%s' % ('clamp' if case['small'] else 'raise'))
+            run_oracle(ctx, 'robust.twin', case)
+        if kind == 'ps7' and rng.chance(0.7):
+            k, m = rng.choice([2, 3]), rng.choice([2, 3, 4])
+            wcol = rng.chance(0.5)
+            nws = [0 if rng.chance(0.4) else rng.randint(1, 6) for _ in range(k if wcol else k * m)]
+            ds = [gen_dist(rng, -9.0, -3.0) if rng.chance(0.3) else gen_dist(rng, -1.0, 5.0) for _ in range(k * m)]
+            fmt = {'dtype': 'float64', 'shape': [k, m], 'layout': rng.choice(['C', 'F', 'T']), 'wcol': wcol,
+                   'wdtype': rng.choice(['int64', 'int32', 'uint8', 'int8'])}
+            if safe_values(o, ds, logical_walls(nws, fmt, k * m), fmt):
+                ctx.branch('oracle:R2:ps7-array-walls-2d')
+                run_oracle(ctx, 'robust.twin', {'kind': 'ps7', 'ctor': base['ctor'], 'hist': base['hist'], 'query': 'db',
+                                                'small': rng.below(2), 'values': ds, 'nws': nws, 'fmt': fmt})
+        # ---- R4: rejected calls
+        probe = [gen_dist(rng, lo, hi) for _ in range(3)]
+        after = [fs_setter(rng) for _ in range(2)] if kind == 'fs' else [oh_setter(rng) for _ in range(3)] \
+            if kind == 'oh' else [['fc', nice(rng, logu(rng, 2.0, 5.0))]] if kind == 'ps7' else [['small', 1]]
+        rejects = [['policy-raise', 1e-30], ['policy-raise', [probe[0], 1e-30]], ['policy-raise-lin', [1e-30, probe[1]]],
+                   ['d-zero', 0.0], ['d-negative', -1.0], ['bad-type', 'abc'], ['plot-raise', [1e-30, probe[0]]]]
+        if kind == 'oh':
+            rejects += [['setter', ['fc', 149.0]], ['setter', ['hbs', 201.0]], ['setter', ['hms', 0.5]],
+                        ['setter', ['area', 'rural']], ['which-not-offered', 100.0]]
+        if kind == 'ps7':
+            rejects += [['neg-walls', -1], ['neg-walls-which', -2]]
+        rej = rejects[(i // len(kinds)) % len(rejects)]
+        hist = [h for h in base['hist']] + ([['small', 0]] if rej[0].startswith('policy') or rej[0] == 'plot-raise' else [])
+        ctx.branch('oracle:R4:' + rej[0])
+        run_oracle(ctx, 'robust.rejected', {'kind': kind, 'ctor': base['ctor'], 'hist': hist, 'nw': nw, 'reject': rej,
+                                            'probe': probe, 'after': after})
+        # ---- R5 boundary values, R6 scale, R7 long-lived / shared objects
+        bc = {'kind': kind, 'ctor': base['ctor'], 'hist': base['hist'], 'nw': nw}
+        if kind == 'gen':
+            bc['degenerate'] = nice(rng, rng.uniform(-30.0, 120.0))
+        ctx.branch('oracle:R5:boundary')
+        run_oracle(ctx, 'robust.boundary', bc)
+        ctx.branch('oracle:R6:scale')
+        run_oracle(ctx, 'robust.scale', {'kind': kind, 'ctor': base['ctor'], 'hist': base['hist'], 'nw': nw,
+                                         'd': [gen_dist(rng, lo, hi) for _ in range(3)],
+                                         'k': rng.choice([-12, -9, -6, -3, -1, 1, 3, 6, 9, 12])})
+        long_hist = list(base['hist'])
+        for _ in range(rng.randint(0, hist_len)):
+            long_hist.append(fs_setter(rng) if kind == 'fs' else oh_setter(rng) if kind == 'oh'
+                             else ['fc', nice(rng, logu(rng, 2.0, 5.0))] if kind == 'ps7' else ['small', rng.below(2)])
+        if long_hist and rng.chance(0.5):
+            long_hist += [long_hist[-1]] * rng.randint(1, 3)
+        ctx.branch('oracle:R7:shared')
+        run_oracle(ctx, 'robust.shared', {'kind': kind, 'ctor': base['ctor'], 'hist': long_hist, 'nw': nw,
+                                          'd': [gen_dist(rng, lo, hi) for _ in range(3)], 'pl': base['pl']})
+    # ---- antenna: typed / shaped angle arrays (int16 matters: 12*angle**2 overflows there), boundaries
+    for i in range(max(12, n_cases // 4)):
+        if rng.chance(0.25):
+            fmt = rand_scalar_fmt(rng, 'angle')
+            vals = [conv_value(rng.uniform(-180.0, 180.0), fmt['stype'], 'angle')]
+            if fmt['stype'] == 'uint8':
+                vals = [abs(vals[0])]
+        else:
+            n, fmt = rand_array_fmt(rng, 'angle', allow_seq=False)
+            vals = [conv_value(rng.uniform(-180.0, 180.0), fmt['dtype'], 'angle') for _ in range(n)]
+            if fmt['dtype'] == 'uint8':
+                vals = [abs(v) for v in vals]
+            if fmt['dtype'] == 'int8':
+                vals = [max(-127.0, min(127.0, v)) for v in vals]
+        if fmt.get('stype') == 'int8':
+            vals = [max(-127.0, min(127.0, vals[0]))]
+        fmt_branches(ctx, fmt, 'oracle:ant:')
+        run_oracle(ctx, 'robust.twin', {'kind': 'ant', 'ctor': [(3, 6)[i % 2]], 'query': 'g', 'values': vals, 'fmt': fmt})
+    for k in (3, 6):
+        run_oracle(ctx, 'robust.boundary', {'kind': 'ant', 'sectors': k})
+        run_oracle(ctx, 'robust.twin', {'kind': 'ant', 'ctor': [k], 'query': 'g',
+                                        'values': [0.0, 53.0, 100.0, 117.0, -117.0, 180.0, -180.0, 30.0],
+                                        'fmt': {'dtype': 'int16', 'shape': [2, 4], 'layout': 'C'}})
+        ctx.branch('oracle:ant:R1:int16-wide-angles')
+
+
+ROBUST_REQUIRED = (
+    ['oracle:' + b for b in ('R1:int-scalar', 'R1:npint-scalar', 'R1:narrow-float-scalar', 'R1:int-array',
+                             'R1:uint8-array', 'R1:narrow-float-array', 'R1:list-or-tuple', 'R2:0d', 'R2:size0',
+                             'R2:Nx1', 'R2:1xN', 'R2:2d', 'R2:3d', 'R2:fortran', 'R2:transposed', 'R2:reversed',
+                             'R2:strided', 'R2:broadcast', 'R2:ps7-array-walls-2d', 'R3:checked', 'policy-clamp',
+                             'policy-raise', 'R4:policy-raise', 'R4:policy-raise-lin', 'R4:d-zero', 'R4:d-negative',
+                             'R4:bad-type', 'R4:plot-raise', 'R4:setter', 'R4:which-not-offered', 'R4:neg-walls',
+                             'R4:neg-walls-which', 'R5:boundary', 'R6:scale', 'R7:shared', 'ant:R1:int-array',
+                             'ant:R1:int16-wide-angles', 'ant:R1:narrow-float-array', 'ant:R2:2d')]
+    + ['corr:' + b for b in ('R1:int-scalar', 'R1:npint-scalar', 'R1:int-array', 'R1:uint8-array',
+                             'R1:narrow-float-array', 'R1:list-or-tuple', 'R2:0d', 'R2:size0', 'R2:Nx1', 'R2:1xN',
+                             'R2:2d', 'R2:3d', 'R2:fortran', 'R2:transposed', 'R2:reversed', 'R2:strided',
+                             'R2:broadcast')])
 
 
 def corpus_oracles(ctx):
@@ -925,10 +1800,17 @@ def check(ctx):
                 'queries); distances log-uniform over 1e-3..1e3 km (PS7: 0.1..1e5 m) plus 1e-9..1e-4 for the '
                 'small-distance policy, parameters in their valid ranges plus out-of-range values for guarded '
                 'setters, all area types, wall counts 0..6 (and negative), angles in [-180,180]; values within 1e-6 dB '
-                'of the policy threshold are excluded (margin); non-trivial = distinct history with >= 2 '
-                'non-flag operations / distinct oracle case')
+                'of the policy threshold are excluded (margin: 1e-2 dB for float32, 2 dB for float16 inputs); about '
+                '45% of the array queries and 20% of the scalar queries / setter values carry a random element '
+                'type (Python int, numpy int8..int64/uint8/uint16, float32/float16), shape (0-d, size-0, (N,1), '
+                '(1,N), 2-D, 3-D) and memory layout (C, Fortran, transposed, reversed, strided, broadcast, list, '
+                'tuple) of the same logical values; R1-R7 oracles per model kind (typed/shaped twins vs float64 scalar '
+                'queries under both policies, input snapshots, rejected calls, boundary values, scales 1e-12..1e12, '
+                'shared / long-lived objects); non-trivial = distinct history with >= 2 non-flag operations / '
+                'distinct oracle case')
     quick = ctx.tier == 'quick'
     n_corr, n_or, hist, depth = (3300, 1200, 12, 2) if quick else (200000, 70000, 40, 3)
+    n_rob = 400 if quick else 12000
     core.prove(ctx, MODULE, generated=['C13Constants'], drivers=[DRIVER], scratch=ctx.scratch)
     ctx.required_branches = ['policy:raise-scalar', 'policy:raise-array', 'policy:clamp-scalar',
                              'policy:clamp-array', 'oh:which_distance-not-offered', 'ps7:los', 'ps7:nlos',
@@ -946,6 +1828,9 @@ def check(ctx):
         ctx.required_branches = []
     corpus_oracles(ctx)
     oracles(ctx, n_or, hist)
+    robust_oracles(ctx, n_rob, hist)
+    if ctx.required_branches:
+        ctx.required_branches = ctx.required_branches + ROBUST_REQUIRED
 
 
 def search(ctx):
